@@ -32,7 +32,7 @@ def correspondence(ctx, batch):
         stages.stage_generate(batch, samples, reg)
         stages.stage_pipeline(batch, [("Root", samples)], reg, common.cmps_choice(rng), parts=("process", "merge"))
     # the hash-string partition on structured near-collisions
-    near = [["lit", False, ["a,b"]], ["lit", False, ["a", "b"]], ["lit", False, ["b", "a"]],
+    near = [["lit", False, ["a,b"]], ["lit", False, ["a", "b"]], ["lit", False, ["a", "b"]],
             ["list", ["union", [["list", ["union", ["int", "bool"]]], ["list", ["union", ["float", ["dict", "unknown"]]]], "null"]]],
             ["list", ["union", [["list", ["union", ["int", "bool"]]], ["list", ["union", ["float", ["dict", "unknown"], "null"]]]]]],
             ["union", ["int", ["union", ["str", "bool"]]]], ["union", ["int", "str", "bool"]],
@@ -80,7 +80,7 @@ def check_case(inputs, cmps, job, registry):
     except Exception as e:  # noqa
         return {"kind": "module-does-not-load", "observed": f"{type(e).__name__}: {e}", "text": text[:3000]}, None
     fw = job["fw"]
-    attached = fw in ("pydantic", "sqlmodel") or job.get("meta", False)
+    attached = fw in ("pydantic", "sqlmodel") or (fw in ("attrs", "dataclasses") and job.get("meta", False))
     acc = real.Acceptor(ns, fw, convert_unicode=job.get("convertUnicode", True), attached=attached)
     roots = {m.index: m for m in reg.models}
     for name, samples in inputs:
@@ -102,7 +102,7 @@ def check_case(inputs, cmps, job, registry):
                 return {"kind": "annotation-unresolvable", "observed": f"{type(e).__name__}: {e}", "sample": s,
                         "text": text[:3000]}, None
             probs = [p for p in acc.problems]
-            if not ok or probs:
+            if not ok:
                 return {"kind": "sample-rejected", "sample": s, "observed": probs[:5], "text": text[:4000]}, None
         if fw == "pydantic":
             for s in samples:
